@@ -212,7 +212,8 @@ def load_classes(R):
         R.contract(fid + "list_keys", prop="C17", types={"self": E_, "_include_merge_parent": TBool}, returns=TList(TStr),
                    ensures=["forall(str, lambda k: (k in result) == (k in self.%s or (_include_merge_parent and truthy(self._merge_parent) and parent_has(self._merge_parent, k))))" % own_field] + KEYS_POST,
                    labels={"obj_method_hooks": "class_hooks"})
-    R.entity("InMemoryPartition", ("partition", "InMemoryPartition"), dict(_results=TDict(TStr, TObj()), _merge_parent=TObj(), _index_bytes=TObj(), _output_keys=TObj(), _parent_data_source=TObj()))
+    # the results dictionary is the user's: it may be a collections.defaultdict (the module's own example builds one)
+    R.entity("InMemoryPartition", ("partition", "InMemoryPartition"), dict(_results=TDict(TStr, TObj(), maybe_default=True), _merge_parent=TObj(), _index_bytes=TObj(), _output_keys=TObj(), _parent_data_source=TObj()))
     overlay_contracts("InMemoryPartition", ("partition", "InMemoryPartition"), "_results", "self._results[key]")
     R.entity("OnDiskPartition", ("storage_filesystem", "OnDiskPartition"), dict(_result_types=TDict(TStr, TObj()), _result_keys=TDict(TStr, TObj()), _merge_parent=TObj(), _codec=TObj("nn:Codec"),
                                                                                  _data_source=TObj("nn:DataSource"), _index_bytes=TObj(), _output_keys=TObj(), _parent_data_source=TObj()))
